@@ -110,6 +110,98 @@ class State:
         self.pc.append(c)
 
 
+class MergeAbort(Exception):
+    pass
+
+
+_SIMPLE_STMTS = (ast.Assign, ast.AugAssign, ast.AnnAssign, ast.Pass, ast.Expr)
+
+
+def _mergeable_if(node):
+    """syntactic gate for if-conversion: both branches are assignments / expression statements / nested ifs of that kind"""
+    def ok(body):
+        for s_ in body:
+            if isinstance(s_, ast.If):
+                if not (ok(s_.body) and ok(s_.orelse)):
+                    return False
+            elif not isinstance(s_, _SIMPLE_STMTS):
+                return False
+        return True
+    return ok(node.body) and ok(node.orelse)
+
+
+def _merge_val(c, a, b, what):
+    if a is b:
+        return a
+    if isinstance(a, Ref) and isinstance(b, Ref):
+        if a.id == b.id:
+            return a
+        raise MergeAbort(what)
+    if isinstance(a, bool) and isinstance(b, bool) and a == b:
+        return a
+    if (T.is_num(a) or T.is_boolish(a) or isinstance(a, T.XR)) and (T.is_num(b) or T.is_boolish(b) or isinstance(b, T.XR)):
+        if is_sym(a) and is_sym(b) and a.eq(b):
+            return a
+        if T.is_boolish(a) != T.is_boolish(b):
+            raise MergeAbort(what)
+        return T.ite(c, a, b)
+    if isinstance(a, tuple) and isinstance(b, tuple) and len(a) == len(b):
+        return tuple(_merge_val(c, x, y, what) for x, y in zip(a, b))
+    if isinstance(a, str) and isinstance(b, str) and a == b:
+        return a
+    if a is None and b is None:
+        return None
+    raise MergeAbort(what)
+
+
+def _merge_heap_obj(c, a, b, what):
+    if a is b:
+        return a
+    if isinstance(a, list) and isinstance(b, list) and len(a) == len(b):
+        return [_merge_val(c, x, y, what) for x, y in zip(a, b)]
+    if isinstance(a, dict) and isinstance(b, dict) and list(a) == list(b):
+        return {k: _merge_val(c, a[k], b[k], what) for k in a}
+    if isinstance(a, Obj) and isinstance(b, Obj) and a.cls is b.cls and list(a.fields) == list(b.fields):
+        return Obj(a.cls, {k: _merge_val(c, a.fields[k], b.fields[k], what) for k in a.fields})
+    if isinstance(a, Arr) and isinstance(b, Arr) and a.shape == b.shape and a.sort == b.sort:
+        return Arr(a.shape, lambda idx, a=a, b=b: T.ite(c, a.get(idx), b.get(idx)), (), a.sort, a.name)
+    raise MergeAbort(what)
+
+
+def _merge_states(s0, s1, s2, c):
+    """join of the two branch states of an if with condition c (both started from s0)"""
+    if s1.ghost != s2.ghost:
+        raise MergeAbort("ghost")
+    m = s1.snapshot()
+    e1, e2 = s1.env, s2.env
+    names = list(dict.fromkeys(list(e1.vars) + list(e2.vars)))
+    for n in names:
+        if n in e1.vars and n in e2.vars:
+            m.env.vars[n] = _merge_val(c, e1.vars[n], e2.vars[n], n)
+        else:
+            v = e1.vars[n] if n in e1.vars else e2.vars[n]
+            # bound on one side only: reading it on the other side would be an UnboundLocalError; the merged value is
+            # unconstrained there (a proof that depends on it fails instead of passing silently)
+            if T.is_num(v) or T.is_boolish(v):
+                fresh = T.Fresh.bool(n + "_unbound") if T.is_boolish(v) else (T.Fresh.int(n + "_unbound") if isinstance(v, int) or (is_sym(v) and z3.is_int(v)) else T.Fresh.real(n + "_unbound"))
+                m.env.vars[n] = T.ite(c, v, fresh) if n in e1.vars else T.ite(c, fresh, v)
+            else:
+                raise MergeAbort(n)
+    p1, p2 = s1.env.parent, s2.env.parent
+    while p1 is not None or p2 is not None:
+        if p1 is None or p2 is None or list(p1.vars) != list(p2.vars) or any(p1.vars[k] is not p2.vars[k] for k in p1.vars):
+            raise MergeAbort("enclosing scope modified")
+        p1, p2 = p1.parent, p2.parent
+    for k in list(dict.fromkeys(list(s1.heap) + list(s2.heap))):
+        if k in s1.heap and k in s2.heap:
+            m.heap[k] = _merge_heap_obj(c, s1.heap[k], s2.heap[k], f"heap {k}")
+        else:
+            m.heap[k] = s1.heap[k] if k in s1.heap else s2.heap[k]     # allocated in one branch: reachable only through merged refs, which abort
+    n0 = len(s0.pc)
+    m.pc = list(s0.pc) + [z3.Implies(c, e) for e in s1.pc[n0 + 1:]] + [z3.Implies(z3.Not(c), e) for e in s2.pc[n0 + 1:]]
+    return m
+
+
 class Explorer:
     """Depth-first enumeration of the feasible paths of `thunk` from the current state."""
     MAX_PATHS = 400
@@ -121,6 +213,8 @@ class Explorer:
 
     def decide(self, cond):
         """Returns the truth value chosen for symbolic condition `cond` on this path."""
+        if getattr(self.interp, "_merging", 0):
+            raise MergeAbort("fork inside a branch that is being if-converted")
         st = self.st
         if self.pos < len(self.script):
             d = self.script[self.pos]
@@ -167,7 +261,7 @@ class Explorer:
                 except PyRaise as e:
                     out = ("raise", e.exc)
                 results.append((self.st.snapshot(), out[0], out[1]))
-                if len(results) > self.MAX_PATHS:
+                if len(results) > (self.interp.ctx.contract.options.get("max_paths", self.MAX_PATHS) if getattr(self.interp.ctx, "contract", None) is not None else self.MAX_PATHS):
                     raise Unsupported("path explosion")
         finally:
             self.interp.explorer = prev
@@ -212,8 +306,16 @@ class Interp:
             return cond
         self.stats["feasibility_queries"] += 1
         s = z3.Solver()
-        s.set("timeout", 1500)
         fs = list(st.pc) + [cond]
+        opt = self.ctx.contract.options.get("feasibility") if self.ctx is not None and getattr(self.ctx, "contract", None) is not None else None
+        if opt == "abstract":
+            # branch-heavy code over nonlinear terms: feasibility is decided on the nonlinear abstraction (products as
+            # uninterpreted functions) with a short budget.  `unsat` there is `unsat` of the original; anything else keeps
+            # the path (an infeasible path kept only adds obligations with an inconsistent hypothesis set).
+            s.set("timeout", 400)
+            s.add(*T.abstract_nonlinear(fs))
+            return s.check() != z3.unsat
+        s.set("timeout", 1500)
         s.add(*fs)
         s.add(*T.theory_axioms(fs))
         r = s.check()
@@ -1105,10 +1207,44 @@ class Interp:
         self.exec_block(node.body, st)
 
     def ex_If(self, node, st):
-        if self.truth(st, self.ev(node.test, st)):
+        c = self.ev(node.test, st)
+        if self._merge_enabled() and self.explorer is not None:
+            cz = st.deref(c)
+            if is_sym(cz) and z3.is_bool(cz):
+                cz = z3.simplify(cz)
+                if not (z3.is_true(cz) or z3.is_false(cz)) and _mergeable_if(node) and self._merged_if(node, st, cz):
+                    return
+        if self.truth(st, c):
             self.exec_block(node.body, st)
         else:
             self.exec_block(node.orelse, st)
+
+    # ---- if-conversion (option "merge_ifs"): straight-line branches are executed both and joined with ite, so that
+    # branch-heavy numeric code yields a number of paths that is additive, not multiplicative, in its if-statements
+    def _merge_enabled(self):
+        ctx = self.ctx
+        return ctx is not None and getattr(ctx, "contract", None) is not None and ctx.contract.options.get("merge_ifs", False)
+
+    def _merged_if(self, node, st, cz):
+        snap0 = st.snapshot()
+        self._merging = getattr(self, "_merging", 0) + 1
+        try:
+            st.assume(cz)
+            self.exec_block(node.body, st)
+            s1 = st.snapshot()
+            st.restore(snap0)
+            st.assume(z3.Not(cz))
+            self.exec_block(node.orelse, st)
+            s2 = st.snapshot()
+            merged = _merge_states(snap0, s1, s2, cz)
+        except (MergeAbort, BreakSig, ContinueSig, ReturnSig, PyRaise, PathInfeasible, Unsupported):
+            st.restore(snap0)
+            return False
+        finally:
+            self._merging -= 1
+        st.restore(merged)
+        self.stats["ifs_merged"] = self.stats.get("ifs_merged", 0) + 1
+        return True
 
     def ex_Delete(self, node, st):
         for t in node.targets:
